@@ -288,6 +288,10 @@ func totalRun(r *vt.Run, t vt.TB, s totalSpec) {
 				r.Violation(t, s, "total:neither", "Parse(%s) returned neither a statement nor an error", show)
 				return
 			}
+			if first.res != nil && first.err != "" {
+				r.Violation(t, s, "total:both", "Parse(%s) returned a statement (%.200v) and an error (%s)", show, first.res, first.err)
+				return
+			}
 			// (several times: an order-dependent choice, e.g. by map iteration,
 			// shows with some probability only)
 			repeats := 6
